@@ -78,20 +78,21 @@ Theorem lcd_body_prov c d d' : lcd c d = Ok d' ->
               d_regions d' = retained_of out /\ d_initials d' = keep_styles c (d_initials d) /\
               Forall2 (body_rel c (replaced_of out)) (body_attrs d) (body_attrs d').
 Proof.
-  intros H. apply lcd_ok_inv in H as [out [body4 [Ho [Hb ->]]]]. exists out. split; [exact Ho|]. split; [reflexivity|]. split; [reflexivity|].
-  unfold body_attrs. cbn [d_body].
-  destruct (d_body d) as [b|]; cbn [option_map] in *.
+  intros H. apply lcd_ok_inv in H as [out [Ho ->]]. exists out. split; [exact Ho|]. split; [reflexivity|]. split; [reflexivity|].
+  unfold body_attrs, body_pipeline. cbn [d_body]. cbv zeta.
+  destruct (d_body d) as [b|]; cbn [option_map].
   - set (al := replaced_of out) in *.
     set (b1 := clear_elem (map fst al) (redirect_elem al (anim_elem (style_elem c b)))) in *.
     pose proof (body_base_F2 c al b) as F1. fold b1 in F1.
-    assert (exists b4, body4 = Some b4 /\
+    assert (exists b4, (match c_bg c with Some col => Some (apply_bg col b1) | None => Some b1 end) = Some b4 /\
               Forall2 (fun a a4 => a4 = body_base c al a \/ exists col, c_bg c = Some col /\ e_kind a = KP /\
                                                                a4 = set_style (body_base c al a) p_BackgroundColor (VColor col))
-                      (elems_of b) (elems_of b4)) as [b4 [E4 F4]]; [|subst body4].
-    { destruct (c_bg c) as [col|]; inversion Hb; subst; eexists; (split; [reflexivity|]).
+                      (elems_of b) (elems_of b4)) as [b4 [E4 F4]].
+    { destruct (c_bg c) as [col|]; cbn [option_map]; eexists; (split; [reflexivity|]).
       - pose proof (Forall2_comp _ _ _ _ _ F1 (apply_bg_F2 col b1)) as F. eapply Forall2_impl; [|exact F].
         intros a a4 [x [-> [->|[Hk ->]]]]; [left; reflexivity|]. right. exists col. rewrite kind_body_base in Hk. auto.
       - eapply Forall2_impl; [|exact F1]. intros a a4 ->. left. reflexivity. }
+    rewrite E4.
     assert (exists b5, (match c_color c with Some col => option_map (set_root_style p_Color (VColor col)) (Some b4) | None => Some b4 end) = Some b5 /\
               Forall2 (fun a4 a5 => a5 = a4 \/ exists col, c_color c = Some col /\ a5 = set_style a4 p_Color (VColor col))
                       (elems_of b4) (elems_of b5)) as [b5 [E5 F5]].
@@ -108,7 +109,7 @@ Proof.
     rewrite E6.
     pose proof (Forall2_comp _ _ _ _ _ (Forall2_comp _ _ _ _ _ F4 F5) F6) as F.
     eapply Forall2_impl; [|exact F]. intros a a' [a5 [[a4 [H4 H5]] H6]]. exists a4, a5. auto.
-  - destruct (c_bg c); [discriminate|]. inversion Hb; subst. destruct (c_color c), (c_pta c); constructor.
+  - destruct (c_bg c), (c_color c), (c_pta c); constructor.
 Qed.
 
 (* ---- the regions ------------------------------------------------------------------------------------------------ *)
